@@ -1,4 +1,7 @@
 #![allow(dead_code)]
+mod alloc;
+#[global_allocator]
+static GLOBAL: alloc::Counting = alloc::Counting;
 mod addr;
 mod blind;
 mod checksum;
@@ -20,6 +23,7 @@ mod sha256c;
 mod sighash;
 mod taproot;
 mod tok;
+mod total;
 mod util;
 mod wire;
 
@@ -84,6 +88,7 @@ fn main() {
         ("addr", "strings") => addr::strings(rest, &mut out),
         ("addr", "valid") => addr::valid(rest, &mut out),
         ("serde", "replay") => serdes::replay(rest, &mut out),
+        ("total", "record") => total::record(rest, &mut out),
         ("dynafed", "record") => dynafed::record(rest, &mut out),
         (m, c) => {
             eprintln!("unknown command {} {}", m, c);
